@@ -826,6 +826,9 @@ class Evaluator:
         if op is ast.Sub:
             return a - b
         if op is ast.Mult:
+            if (a == const(1) or b == const(1)) and node is not None:
+                # 1 * x: numeric coercion (bool -> int); invisible in the algebra, recorded for the rules that care
+                self.emit("coerce", node, value=(b if a == const(1) else a), how="1*")
             return a * b
         if op is ast.Div:
             if not b.num:
